@@ -66,9 +66,17 @@ def formula_clause(model, rep, funcs):
     okidx = False
     if okl and len(inner) == 1:
         bi = dict(bg)
-        okidx = M.has("$nl = $lab.max()", bi) and isinstance(bi["lab"][1], ast.Name) and isinstance(bi["nl"][1], ast.Name) and \
-            Matcher(inner[0]).has(f"return sum_labels($$a, labels={bi['lab'][1].id}, index=np.arange(0, {bi['nl'][1].id}))") \
-            and M.has("$freq = (np.arange(len($$o)) + 0.5) * dfreq")
+        okidx = M.has("$nl = $lab.max()", bi) and isinstance(bi["lab"][1], ast.Name) and isinstance(bi["nl"][1], ast.Name)
+        if okidx:
+            MI_ = Matcher(inner[0])
+            ln_, nn_ = bi["lab"][1].id, bi["nl"][1].id
+            direct = MI_.has(f"return sum_labels($$a, labels={ln_}, index=np.arange(0, {nn_}))")
+            via = False
+            for _, bb_ in MI_.find(f"return sum_labels($$a, labels={ln_}, index=$idx)"):
+                # the index array may be built once in the enclosing function
+                if isinstance(bb_["idx"][1], ast.Name) and M.has(f"{bb_['idx'][1].id} = np.arange(0, {nn_})"):
+                    via = True
+            okidx = (direct or via) and M.has("$freq = (np.arange(len($$o)) + 0.5) * dfreq")
     rep.ob("L", f.anchor, "shell i of the output is the sum over label i (index 0 .. nlabels-1) and is reported at frequency (i + 1/2) * dfreq", okidx, "", node=f.node, fn=f,
            clause="layout", stmt="fsc shell index")
     okl = okl and okshape
@@ -188,6 +196,11 @@ def loader_clause(model, rep, funcs):
                 hsrc = msrc(ML.expr(bl["h"][1]))
                 ok = "average_split(" in hsrc or ML.has("$h = self.average_split(...)", bl)
                 dfs = msrc(ML.expr(bl["df"][1]))
+                if isinstance(bl["df"][1], ast.Name) and "dfreq" not in dfs:
+                    # a local bound on several paths (if/else instead of a conditional expression): every binding must come from the dfreq argument or be its default
+                    vals_ = [st.value for st in walk_no_nested(f.node) if isinstance(st, ast.Assign) and any(isinstance(t, ast.Name) and t.id == bl["df"][1].id for t in st.targets)]
+                    if vals_ and any("dfreq" in norm_src(v) for v in vals_) and all("dfreq" in norm_src(v) or "min(" in norm_src(v) for v in vals_):
+                        dfs = " | ".join(norm_src(v) for v in vals_)
                 ok = ok and "dfreq" in dfs
                 det = f"half-maps `{hsrc[:60]}`; dfreq `{dfs[:60]}`"
         rep.ob("S11", a, "FSC is computed between the two half-maps of split i, both multiplied by the same mask", ok, det, node=f.node, fn=f, clause="loader level",
